@@ -259,11 +259,14 @@ def run(pid, tier, replay=None):
 
     # ---- (c) randomized schedules, bigger universes
     chk.mark("spec->code replay + validation")
-    nrand = 12 if quick else 60
+    nrand = 14 if quick else 60
     traces_by = {}
     for i in range(nrand):
-        kind = ["line_deep", "deep_fork", "multi_batch", "three_nodes", "small", "line_deep"][i % 6] if i < 6 else \
-            rng.choice(["deep_fork", "multi_batch", "three_nodes", "small", "line_deep"])
+        kind = ["line_deep", "deep_fork_stored", "multi_batch", "three_nodes", "small", "line_deep", "deep_fork_stored", "deep_fork"][i] if i < 8 else \
+            rng.choice(["deep_fork", "deep_fork_stored", "multi_batch", "three_nodes", "small", "line_deep"])
+        stored_part = kind == "deep_fork_stored"       # the server also stores a proper, non-empty part of the requester's branch
+        if stored_part:
+            kind = "deep_fork"
         prefix = []
         if kind == "deep_fork":          # fork deeper than the locator's dense range (10), side branch also stored at the server
             L = rng.randint(13, 18)
@@ -277,7 +280,10 @@ def run(pid, tier, replay=None):
             for j in range(flen):
                 parent[b0 + j] = prev
                 prev = b0 + j
-            A = set(range(0, L + 1)) | (set(range(b0, b0 + rng.randint(0, flen))) if rng.random() < 0.6 else set())
+            if stored_part:
+                A = set(range(0, L + 1)) | set(range(b0, b0 + rng.randint(3, max(3, flen - 2))))
+            else:
+                A = set(range(0, L + 1)) | (set(range(b0, b0 + rng.randint(0, flen))) if rng.random() < 0.6 else set())
             B = set(range(0, fork_at + 1)) | set(range(b0, b0 + flen))
             init, peers, batch = {1: A, 2: B}, {1: {2}, 2: {1}}, rng.choice([3, 4, 500])
         elif kind == "multi_batch":
